@@ -355,4 +355,256 @@ theorem act_iff (e : Elem) (anc : List Elem) (a : Nat) (b : ExecutionBranch) :
     rw [← hb]
     exact act_of_at prog nth root hroot hentry hnth hat e anc i hi hp
 end ActIff
+
+/-! ## `compile` produces the layout -/
+
+mutual
+/-- number of nodes strictly below `n` -/
+def nodeSub : AstNode → Nat
+  | .mk _ ch de _ => listSize ch + listSize de
+/-- number of nodes in a list of sibling subtrees -/
+def listSize : List AstNode → Nat
+  | [] => 0
+  | n :: rest => 1 + nodeSub n + listSize rest
+end
+
+def listSub : List AstNode → Nat
+  | [] => 0
+  | n :: rest => nodeSub n + listSub rest
+
+theorem listSize_eq (nodes : List AstNode) : listSize nodes = nodes.length + listSub nodes := by
+  induction nodes with
+  | nil => simp [listSize, listSub]
+  | cons n rest ih => simp [listSize, listSub, ih]; omega
+
+/-- `compile_descendants` + `compile_nodes` for one block -/
+def compileBlock (c : Compiler) (nodes : List AstNode) : Compiler × Option AddressRange :=
+  if nodes.isEmpty then (c, none) else
+    let r := c.reserve nodes.length
+    (compileList r.1 nodes r.2.start, some r.2)
+
+theorem compileNode_eq (c : Compiler) (p : Predicate) (ch de : List AstNode) (ids : List Nat) (pos : Nat) :
+    compileNode c (.mk p ch de ids) pos =
+      { (compileBlock (compileBlock c ch).1 de).1 with
+        instructions := (compileBlock (compileBlock c ch).1 de).1.instructions.set pos
+          (compilePredicate p ⟨ids, (compileBlock c ch).2, (compileBlock (compileBlock c ch).1 de).2⟩)
+        enableNthOfType := (compileBlock (compileBlock c ch).1 de).1.enableNthOfType ||
+          p.onTagNameExprs.any exprIsNthOfType } := by
+  unfold compileNode compileBlock
+  rfl
+
+theorem compileList_cons (c : Compiler) (n : AstNode) (rest : List AstNode) (pos : Nat) :
+    compileList c (n :: rest) pos = compileList (compileNode c n pos) rest (pos + 1) := by
+  rw [compileList]
+
+theorem compileList_nil (c : Compiler) (pos : Nat) : compileList c [] pos = c := by
+  rw [compileList]
+
+def NodeSpec (n : AstNode) : Prop :=
+  ∀ (c : Compiler) (pos : Nat), pos < c.freeSpaceStart →
+    c.freeSpaceStart + nodeSub n ≤ c.instructions.length →
+    (compileNode c n pos).freeSpaceStart = c.freeSpaceStart + nodeSub n ∧
+    (compileNode c n pos).instructions.length = c.instructions.length ∧
+    (∀ x, x ≠ pos → ¬ (c.freeSpaceStart ≤ x ∧ x < c.freeSpaceStart + nodeSub n) →
+      (compileNode c n pos).instructions[x]? = c.instructions[x]?) ∧
+    (∀ instrs' : List Instruction,
+      (∀ x, (x = pos ∨ (c.freeSpaceStart ≤ x ∧ x < c.freeSpaceStart + nodeSub n)) →
+        instrs'[x]? = (compileNode c n pos).instructions[x]?) → NodeCompiled instrs' n pos)
+
+def ListSpec (nodes : List AstNode) : Prop :=
+  ∀ (c : Compiler) (pos : Nat), pos + nodes.length ≤ c.freeSpaceStart →
+    c.freeSpaceStart + listSub nodes ≤ c.instructions.length →
+    (compileList c nodes pos).freeSpaceStart = c.freeSpaceStart + listSub nodes ∧
+    (compileList c nodes pos).instructions.length = c.instructions.length ∧
+    (∀ x, ¬ (pos ≤ x ∧ x < pos + nodes.length) →
+      ¬ (c.freeSpaceStart ≤ x ∧ x < c.freeSpaceStart + listSub nodes) →
+      (compileList c nodes pos).instructions[x]? = c.instructions[x]?) ∧
+    (∀ instrs' : List Instruction,
+      (∀ x, ((pos ≤ x ∧ x < pos + nodes.length) ∨
+          (c.freeSpaceStart ≤ x ∧ x < c.freeSpaceStart + listSub nodes)) →
+        instrs'[x]? = (compileList c nodes pos).instructions[x]?) → ListCompiled instrs' nodes pos)
+
+def BlockSpec (nodes : List AstNode) : Prop :=
+  ∀ (c : Compiler), c.freeSpaceStart + listSize nodes ≤ c.instructions.length →
+    (compileBlock c nodes).1.freeSpaceStart = c.freeSpaceStart + listSize nodes ∧
+    (compileBlock c nodes).1.instructions.length = c.instructions.length ∧
+    (∀ x, ¬ (c.freeSpaceStart ≤ x ∧ x < c.freeSpaceStart + listSize nodes) →
+      (compileBlock c nodes).1.instructions[x]? = c.instructions[x]?) ∧
+    (∀ instrs' : List Instruction,
+      (∀ x, (c.freeSpaceStart ≤ x ∧ x < c.freeSpaceStart + listSize nodes) →
+        instrs'[x]? = (compileBlock c nodes).1.instructions[x]?) →
+      (nodes = [] ∧ (compileBlock c nodes).2 = none) ∨
+      (nodes ≠ [] ∧ ∃ s, (compileBlock c nodes).2 = some ⟨s, s + nodes.length⟩ ∧ ListCompiled instrs' nodes s))
+
+theorem listSpec_nil : ListSpec [] := by
+  intro c pos _ _
+  rw [compileList_nil]
+  exact ⟨by simp [listSub], rfl, fun _ _ _ => rfl, fun _ _ => by unfold ListCompiled; trivial⟩
+
+theorem listSpec_cons {n : AstNode} {rest : List AstNode} (hn : NodeSpec n) (hr : ListSpec rest) :
+    ListSpec (n :: rest) := by
+  intro c pos hpos hspace
+  simp only [List.length_cons, listSub] at hpos hspace ⊢
+  rw [compileList_cons]
+  obtain ⟨f1, l1, fr1, cp1⟩ := hn c pos (by omega) (by omega)
+  obtain ⟨f2, l2, fr2, cp2⟩ := hr (compileNode c n pos) (pos + 1) (by rw [f1]; omega) (by rw [f1, l1]; omega)
+  refine ⟨by rw [f2, f1]; omega, by rw [l2, l1], ?_, ?_⟩
+  · intro x hx1 hx2
+    rw [fr2 x (by omega) (by rw [f1]; omega), fr1 x (by omega) (by omega)]
+  · intro instrs' hag
+    unfold ListCompiled
+    constructor
+    · apply cp1
+      intro x hx
+      rw [hag x (by omega)]
+      exact fr2 x (by omega) (by rw [f1]; omega)
+    · apply cp2
+      intro x hx
+      rw [f1] at hx
+      exact hag x (by omega)
+
+theorem blockSpec_of_list {nodes : List AstNode} (hl : ListSpec nodes) : BlockSpec nodes := by
+  intro c hspace
+  unfold compileBlock
+  cases nodes with
+  | nil =>
+    have e : (if ([] : List AstNode).isEmpty = true then ((c, none) : Compiler × Option AddressRange) else
+        ((compileList (c.reserve ([] : List AstNode).length).1 [] (c.reserve ([] : List AstNode).length).2.start,
+          some (c.reserve ([] : List AstNode).length).2))) = (c, none) := rfl
+    rw [e]
+    exact ⟨by simp [listSize], rfl, fun _ _ => rfl, fun _ _ => Or.inl ⟨rfl, rfl⟩⟩
+  | cons n rest =>
+    rw [listSize_eq] at hspace ⊢
+    simp only [List.isEmpty_cons, Bool.false_eq_true, if_false, Compiler.reserve]
+    obtain ⟨f, l, fr, cp⟩ := hl { c with freeSpaceStart := c.freeSpaceStart + (n :: rest).length } c.freeSpaceStart
+      (by simp) (by simp only; omega)
+    simp only at f l fr cp
+    refine ⟨by rw [f]; omega, l, ?_, ?_⟩
+    · intro x hx
+      exact fr x (by omega) (by omega)
+    · intro instrs' hag
+      right
+      refine ⟨by simp, c.freeSpaceStart, rfl, ?_⟩
+      apply cp
+      intro x hx
+      exact hag x (by omega)
+
+theorem nodeSpec_of_blocks {p : Predicate} {ch de : List AstNode} {ids : List Nat}
+    (hc : BlockSpec ch) (hd : BlockSpec de) : NodeSpec (.mk p ch de ids) := by
+  intro c pos hpos hspace
+  simp only [nodeSub] at hspace ⊢
+  rw [compileNode_eq]
+  obtain ⟨f1, l1, fr1, cp1⟩ := hc c (by omega)
+  obtain ⟨f2, l2, fr2, cp2⟩ := hd (compileBlock c ch).1 (by rw [f1, l1]; omega)
+  simp only
+  have hposlt : pos < (compileBlock (compileBlock c ch).1 de).1.instructions.length := by
+    rw [l2, l1]; omega
+  refine ⟨by rw [f2, f1]; omega, by simp [l2, l1], ?_, ?_⟩
+  · intro x hx1 hx2
+    rw [List.getElem?_set_ne (by omega), fr2 x (by rw [f1]; omega), fr1 x (by omega)]
+  · intro instrs' hag
+    unfold NodeCompiled
+    refine ⟨(compileBlock c ch).2, (compileBlock (compileBlock c ch).1 de).2, ?_, ?_, ?_⟩
+    · rw [hag pos (Or.inl rfl)]
+      simp [List.getElem?_set_self hposlt]
+    · apply cp1
+      intro x hx
+      rw [hag x (by omega), List.getElem?_set_ne (by omega)]
+      exact fr2 x (by rw [f1]; omega)
+    · apply cp2
+      intro x hx
+      rw [f1] at hx
+      rw [hag x (by omega), List.getElem?_set_ne (by omega)]
+
+mutual
+theorem nodeSpec : ∀ (n : AstNode), NodeSpec n
+  | .mk _ ch de _ => nodeSpec_of_blocks (blockSpec_of_list (listSpec ch)) (blockSpec_of_list (listSpec de))
+theorem listSpec : ∀ (nodes : List AstNode), ListSpec nodes
+  | [] => listSpec_nil
+  | n :: rest => listSpec_cons (nodeSpec n) (listSpec rest)
+end
+
+/-! ### the `enable_nth_of_type` flag covers every instruction -/
+
+def NthOk (c : Compiler) : Prop :=
+  ∀ i ∈ c.instructions, c.enableNthOfType = true ∨ ¬ i.localNameExprs.any exprIsNthOfType = true
+
+def NodeNth (n : AstNode) : Prop :=
+  ∀ (c : Compiler) (pos : Nat), NthOk c →
+    NthOk (compileNode c n pos) ∧ (c.enableNthOfType = true → (compileNode c n pos).enableNthOfType = true)
+
+def ListNth (nodes : List AstNode) : Prop :=
+  ∀ (c : Compiler) (pos : Nat), NthOk c →
+    NthOk (compileList c nodes pos) ∧ (c.enableNthOfType = true → (compileList c nodes pos).enableNthOfType = true)
+
+def BlockNth (nodes : List AstNode) : Prop :=
+  ∀ (c : Compiler), NthOk c →
+    NthOk (compileBlock c nodes).1 ∧ (c.enableNthOfType = true → (compileBlock c nodes).1.enableNthOfType = true)
+
+theorem listNth_cons {n : AstNode} {rest : List AstNode} (hn : NodeNth n) (hr : ListNth rest) : ListNth (n :: rest) := by
+  intro c pos hc
+  rw [compileList_cons]
+  obtain ⟨h1, m1⟩ := hn c pos hc
+  obtain ⟨h2, m2⟩ := hr _ (pos + 1) h1
+  exact ⟨h2, fun h => m2 (m1 h)⟩
+
+theorem blockNth_of_list {nodes : List AstNode} (hl : ListNth nodes) : BlockNth nodes := by
+  intro c hc
+  unfold compileBlock
+  by_cases he : nodes.isEmpty = true
+  · simp only [he, if_true]; exact ⟨hc, id⟩
+  · simp only [he, if_false]
+    exact hl _ _ hc
+
+theorem nodeNth_of_blocks {p : Predicate} {ch de : List AstNode} {ids : List Nat}
+    (hc : BlockNth ch) (hd : BlockNth de) : NodeNth (.mk p ch de ids) := by
+  intro c pos hok
+  rw [compileNode_eq]
+  obtain ⟨h1, m1⟩ := hc c hok
+  obtain ⟨h2, m2⟩ := hd _ h1
+  constructor
+  · intro i hi
+    simp only at hi ⊢
+    rcases List.mem_or_eq_of_mem_set hi with hi | hi
+    · rcases h2 i hi with h | h
+      · left; simp [h]
+      · right; exact h
+    · subst hi
+      by_cases hp : p.onTagNameExprs.any exprIsNthOfType = true
+      · left; simp [hp]
+      · right; simpa [compilePredicate] using hp
+  · intro h
+    simp [m2 (m1 h)]
+
+mutual
+theorem nodeNth : ∀ (n : AstNode), NodeNth n
+  | .mk _ ch de _ => nodeNth_of_blocks (blockNth_of_list (listNth ch)) (blockNth_of_list (listNth de))
+theorem listNth : ∀ (nodes : List AstNode), ListNth nodes
+  | [] => fun c pos hc => by rw [compileList_nil]; exact ⟨hc, id⟩
+  | n :: rest => listNth_cons (nodeNth n) (listNth rest)
+end
+
+/-- The compiled program: the root list is laid out at the entry points, every instruction that
+    tests `:nth-of-type` is covered by the flag. -/
+theorem compile_layout (ast : Ast) (hcount : ast.cumulativeNodeCount = listSize ast.root) :
+    ListCompiled (compile ast).instructions ast.root (compile ast).entryPoints.start ∧
+    (compile ast).entryPoints.stop = (compile ast).entryPoints.start + ast.root.length ∧
+    (∀ i ∈ (compile ast).instructions,
+      (compile ast).enableNthOfType = true ∨ ¬ i.localNameExprs.any exprIsNthOfType = true) := by
+  unfold compile Compiler.compileNodes Compiler.reserve
+  simp only
+  have hspec := listSpec ast.root
+    { instructions := List.replicate ast.cumulativeNodeCount Instruction.noop,
+      freeSpaceStart := 0 + ast.root.length, enableNthOfType := false } 0 (by simp)
+    (by simp only [List.length_replicate, hcount, listSize_eq]; omega)
+  obtain ⟨_, _, _, cp⟩ := hspec
+  refine ⟨cp _ (fun _ _ => rfl), by simp, ?_⟩
+  have hn := (listNth ast.root
+    { instructions := List.replicate ast.cumulativeNodeCount Instruction.noop,
+      freeSpaceStart := 0 + ast.root.length, enableNthOfType := false } 0 (by
+        intro i hi
+        right
+        simp only [List.mem_replicate] at hi
+        rw [hi.2]; simp [Instruction.noop])).1
+  exact hn
 end LolHtml.SelVM
